@@ -1046,3 +1046,41 @@ package raft
 //@   ensures #committed-prefix-stable [C01] forall i int :: i <= old(log_last(r.raftLog)) && old(log_has(r.raftLog, i)) ==> log_has(r.raftLog, i) && log_term(r.raftLog, i) == old(log_term(r.raftLog, i))
 //@   ensures #kept r.id == old(r.id) && r.raftLog == old(r.raftLog) && r.raftLog.committed == old(r.raftLog.committed) && r.trk.Progress == old(r.trk.Progress)
 //@   ensures #wf wf_raft(r) && hs_monotone(r) && typestate(r)
+
+//@ -- ------------------------------------------------------------------------------------------
+//@ -- raft.go: elections
+
+//@ func raft.raft.poll [C02]
+//@   requires wf_raft(r)
+//@   reveal wf_trk
+//@   ensures #first-wins [C02] (old(has(r.trk.Votes, id)) ==> r.trk.Votes[id] == old(r.trk.Votes[id])) && (!old(has(r.trk.Votes, id)) ==> r.trk.Votes[id] == v) && has(r.trk.Votes, id)
+//@   ensures #others-kept [C02] forall k uint64 :: k != id ==> has(r.trk.Votes, k) == old(has(r.trk.Votes, k)) && r.trk.Votes[k] == old(r.trk.Votes[k])
+//@   ensures #tally [C02 C12] result == jointVoteSpec(r.trk.Voters, r.trk.Votes)
+//@   ensures #rest raft_kept_but_msgs(r) && r.msgs == old(r.msgs) && r.msgsAfterAppend == old(r.msgsAfterAppend) && r.raftLog.committed == old(r.raftLog.committed)
+//@        && r.trk.Progress == old(r.trk.Progress) && r.trk.Votes == old(r.trk.Votes)
+//@   ensures #wf wf_raft(r) && hs_monotone(r)
+
+//@ -- "a committed configuration change has not been applied yet": TODO verify the body (scan with a callback); until then the
+//@ -- intended result is an assumed contract (listed in the evidence)
+//@ ufun confChangeIn(l *raftLog, lo uint64, hi uint64) bool
+//@ func raft.raft.hasUnappliedConfChanges [C10]
+//@   trusted
+//@   pure
+//@   requires wf_raft(r)
+//@   ensures result == (r.raftLog.applied < r.raftLog.committed && confChangeIn(r.raftLog, r.raftLog.applied + 1, r.raftLog.committed + 1))
+
+//@ func raft.raft.campaign [C02 C17 C05 C19]
+//@   requires wf_raft(r)
+//@   requires #not-leader [C14] r.state != StateLeader
+//@   requires #a-arith r.Term + 1 < 9223372036854775808 && r.trk.MaxInflight >= 1
+//@   reveal wf_raftLog, wf_unstable, wf_storage
+//@   ensures #pre-election [C17] t == campaignPreElection ==> r.state == StatePreCandidate && r.Term == old(r.Term) && r.Vote == old(r.Vote)
+//@   ensures #election [C02 C07] t != campaignPreElection ==> r.state == StateCandidate && r.Term == old(r.Term) + 1 && r.Vote == r.id
+//@   ensures #votes-empty [C02 C05] len(r.trk.Votes) == 0
+//@   ensures #kept r.id == old(r.id) && r.raftLog == old(r.raftLog) && r.raftLog.committed == old(r.raftLog.committed) && r.trk.Progress == old(r.trk.Progress)
+//@        && log_last(r.raftLog) == old(log_last(r.raftLog))
+//@   ensures #wf wf_raft(r) && hs_monotone(r) && typestate(r)
+//@   loop 1 invariant #ids len(ids) == iter && ids != nil
+//@   loop 2 invariant #state 0 <= iter && iter <= len(ids) && wf_raft(r) && typestate(r) && r.Term == (t == campaignPreElection ? old(r.Term) : old(r.Term) + 1) && r.Vote == (t == campaignPreElection ? old(r.Vote) : r.id)
+//@        && r.state == (t == campaignPreElection ? StatePreCandidate : StateCandidate) && len(r.trk.Votes) == 0 && r.id == old(r.id) && r.raftLog == old(r.raftLog)
+//@        && r.raftLog.committed == old(r.raftLog.committed) && r.trk.Progress == old(r.trk.Progress) && log_last(r.raftLog) == old(log_last(r.raftLog)) && term >= 1
